@@ -511,6 +511,15 @@ pub fn analyse(rep: &RunReport) -> Verdict {
                 v(&mut out, "C15", "ran_on_panicked_object", &[r.id], r.start.unwrap(), format!("{} {} ran on panicked object {}", r.tag, r.id, o));
             }
         }
+        // ... and whatever was still queued when the object panicked stays where it is: nothing of the dead queue starts once the
+        // panic is over (the phase in which it happened has drained completely)
+        if let Some(&after) = world.phase_started.get(pp + 1) {
+            for r in ops.iter().filter(|r| r.obj == Some(o) && r.phase <= pp && r.kind.has_body() && !r.injects_panic) {
+                if r.start.map_or(false, |st| st > after) {
+                    v(&mut out, "C15", "dead_queue_ran_later", &[r.id], r.start.unwrap(), format!("{} {} had been queued on object {} when it panicked; it was started after the panic was over", r.tag, r.id, o));
+                }
+            }
+        }
     }
 
     // ---- C17: pool size
